@@ -12,6 +12,8 @@ and a path read -> use -> return that never takes the two edges of one textually
 directions (unless a variable of the condition is stored in between).  The difference must be a *constant*, so the verdict
 does not depend on the values of the symbols; pairs whose difference is symbolic are not decided.
 """
+import os
+import sys
 from nk.facts import kids, strip, const, callee, show, walk, call_args
 from nk.report import Ob, RuleResult, DISCHARGED, VIOLATED, OBSERVATION
 from nk.build import AnalysisBroken
@@ -355,3 +357,646 @@ def _fmt(L, lf):
         parts.append(nm if c == 1 else '%d*%s' % (c, nm))
     parts.append(str(lf[1]))
     return '+'.join(parts)
+
+
+# ---------------------------------------------------------------------------------------------------------------------
+# RUN-EXTENT: the same obligation for decoders that keep a *running* position: `address += 2; count += 2; read16(address)`
+# (tms9900, 68000-style extension words).  READ-EXTENT above needs never-reassigned symbols; here the reassigned integer
+# locals/parameters whose every store is affine (`v = lin`, `v += lin`, `v++`) are propagated along CFG paths as linear
+# forms over the entry values, so `address + k` at a read and `count` at the return become comparable again.  The value read
+# is followed through local assignments; it is *used* when it (or a local derived from it) is an argument of a call.
+
+def _subst(lf, env, params):
+    if lf is None:
+        return None
+    m, c = {}, lf[1]
+    for a, k in lf[0].items():
+        if a in env:
+            v = env[a]
+            if v is None:
+                return None
+            for a2, k2 in v[0]:
+                m[a2] = m.get(a2, 0) + k * k2
+            c += k * v[1]
+        else:
+            m[a] = m.get(a, 0) + k
+    return (tuple(sorted((a, k) for a, k in m.items() if k)), c)
+
+
+CAP = 48
+_ROWVALS = {}
+
+
+def _rowvals(prog, table):
+    """rows of a constant table as {field: int | [int, ...]} (fields that are not integer constants are left out)."""
+    if table not in _ROWVALS:
+        from nk import tables
+        out = None
+        try:
+            rows, fields, g = tables.rows(prog, table)
+            out = []
+            for r in rows:
+                d = {}
+                for f_, e in r.items():
+                    if e is None:
+                        continue
+                    if e['k'] == 'InitListExpr':
+                        vs_ = [const(x) for x in kids(e)]
+                        if all(v is not None for v in vs_):
+                            d[f_] = vs_
+                    else:
+                        v = const(e)
+                        if v is not None:
+                            d[f_] = v
+                out.append(d)
+        except Exception:
+            out = None
+        _ROWVALS[table] = out
+    return _ROWVALS[table]
+
+
+_CMP = {'<': lambda a, b: a < b, '<=': lambda a, b: a <= b, '>': lambda a, b: a > b, '>=': lambda a, b: a >= b,
+        '==': lambda a, b: a == b, '!=': lambda a, b: a != b}
+
+
+def _rows_ok(prog, table, cons):
+    """Is there a row of the table satisfying every constraint ((R, table, idx, field, ci), (mode, val))?"""
+    for r_ in _rowvals(prog, table):
+        good = True
+        for (_, _, _, f_, ci), (mode, vals) in cons:
+            rv = r_.get(f_)
+            if isinstance(rv, list):
+                rv = rv[ci] if ci is not None and 0 <= ci < len(rv) else None
+            if rv is None:
+                continue
+            if mode == 'cmp':
+                op, cv, truth = vals
+                if _CMP[op](cv, rv) != truth:
+                    good = False
+                    break
+            elif (rv in vals) != (mode == 'in'):
+                good = False
+                break
+        if good:
+            return True
+    return False
+
+
+def _row_member(prog, fn, e):
+    """table_X[IDX].F  ->  (table, idx text, idx vars, field) for a constant table with known rows."""
+    c = strip(e, casts=True)
+    if c is None or c['k'] != 'MemberExpr' or c.get('arrow'):
+        return None
+    base = strip(kids(c)[0], casts=True)
+    if base['k'] != 'ArraySubscriptExpr':
+        return None
+    t = strip(kids(base)[0], casts=True)
+    if t['k'] != 'DeclRefExpr' or t.get('dk') != 'global' or not _rowvals(prog, t['n']):
+        return None
+    idx = kids(base)[1]
+    if any(x['k'] in ('CallExpr', 'CXXMemberCallExpr') for x in walk(idx)):
+        return None
+    vs = frozenset(x.get('d') for x in walk(idx) if x['k'] == 'DeclRefExpr' and x.get('d') is not None)
+    return (t['n'], show(idx), vs, c['n'])
+
+
+def _liveness(fn, keep):
+    """block -> decl ids live on entry (block granularity; a plain `v = e` / declaration kills v when v is not read in the block)."""
+    use, kill = {}, {}
+    for b, bb in fn.blocks.items():
+        u, k = set(), set()
+        tgt = set()
+        for nid in bb['e']:
+            n = fn.nodes.get(nid)
+            if n is None:
+                continue
+            if n['k'] == 'BinaryOperator' and n.get('op') == '=':
+                t = strip(kids(n)[0])
+                if t['k'] == 'DeclRefExpr':
+                    tgt.add(t['i'])
+                    k.add(t.get('d'))
+            elif n['k'] == 'DeclStmt':
+                for dd in n.get('decls', ()):
+                    k.add(dd['d'])
+        for nid in list(bb['e']) + ([bb['cond']] if 'cond' in bb else []):
+            n = fn.nodes.get(nid)
+            if n is not None and n['k'] == 'DeclRefExpr' and nid not in tgt:
+                u.add(n.get('d'))
+        if 'cond' in bb and fn.nodes.get(bb['cond']) is not None:
+            for x in walk(fn.nodes[bb['cond']]):
+                if x['k'] == 'DeclRefExpr':
+                    u.add(x.get('d'))
+        use[b], kill[b] = u, k - u
+    live = {b: set(use[b]) | keep for b in fn.blocks}
+    changed = True
+    while changed:
+        changed = False
+        for b, bb in fn.blocks.items():
+            out = set()
+            for s_ in bb['s']:
+                if s_ is not None:
+                    out |= live[s_]
+            new = use[b] | (out - kill[b]) | keep
+            if new != live[b]:
+                live[b] = new
+                changed = True
+    return live
+
+
+def _row_switches(prog, fn, counters):
+    """switch blocks over table_X[IDX].F or table_X[IDX].F[C] (C a propagated loop counter or a constant):
+    block -> (table, idx text, idx vars, field, counter decl | None, constant index | None, [allowed set per successor], all case values)"""
+    out = {}
+    for b, bb in fn.blocks.items():
+        if bb.get('termk') != 'SwitchStmt' or 'cond' not in bb:
+            continue
+        c = strip(fn.nodes.get(bb['cond']), casts=True)
+        cdecl = cidx = None
+        if c is None:
+            continue
+        if c['k'] == 'ArraySubscriptExpr' and strip(kids(c)[0], casts=True)['k'] == 'MemberExpr':
+            ix = strip(kids(c)[1], casts=True)
+            if ix['k'] == 'DeclRefExpr' and ix.get('d') in counters:
+                cdecl = ix['d']
+            elif const(ix) is not None:
+                cidx = const(ix)
+            else:
+                continue
+            c = strip(kids(c)[0], casts=True)
+        if c['k'] != 'MemberExpr' or c.get('arrow'):
+            continue
+        base = strip(kids(c)[0], casts=True)
+        if base['k'] != 'ArraySubscriptExpr':
+            continue
+        t = strip(kids(base)[0], casts=True)
+        if t['k'] != 'DeclRefExpr' or t.get('dk') != 'global':
+            continue
+        rows = _rowvals(prog, t['n'])
+        if not rows:
+            continue
+        idx = kids(base)[1]
+        vs = frozenset(x.get('d') for x in walk(idx) if x['k'] == 'DeclRefExpr' and x.get('d') is not None)
+        if any(x['k'] in ('CallExpr', 'CXXMemberCallExpr') for x in walk(idx)):
+            continue
+        allowed = []
+        allv = set()
+        for s_ in bb['s']:
+            lab = fn.nodes.get(fn.blocks[s_].get('label')) if s_ is not None else None
+            if lab is not None and lab['k'] == 'CaseStmt' and lab.get('v') is not None:
+                allowed.append(frozenset([lab['v']]))
+                allv.add(lab['v'])
+            else:
+                allowed.append(None)
+        out[b] = (t['n'], show(idx), vs, c['n'], cdecl, cidx, allowed, frozenset(allv))
+    return out
+
+
+def _tmax(a, b):
+    """taint values: tuples of (symkey, const), one per symkey, the larger const wins."""
+    if not a:
+        return b
+    if not b:
+        return a
+    m = dict(a)
+    for k, c in b:
+        if k not in m or m[k] < c:
+            m[k] = c
+    return tuple(sorted(m.items()))
+
+
+_RUN_CACHE = {}
+
+
+def run_extent(prog, cg, floor=10, limit=80000):
+    return _run(prog, cg, limit)[0].with_floor(floor) if False else _floor(_run(prog, cg, limit)[0], floor, 'decoders with a running position')
+
+
+def run_cover(prog, cg, floor=10, limit=80000):
+    return _floor(_run(prog, cg, limit)[1], floor, 'decoders whose reads all have constant offsets on some path')
+
+
+def _floor(res, floor, what):
+    if len(res.obs) < floor:
+        raise AnalysisBroken('%s: only %d %s' % (res.rule, len(res.obs), what))
+    res.floor = floor
+    return res
+
+
+def _run(prog, cg, limit):
+    if id(prog) in _RUN_CACHE:
+        return _RUN_CACHE[id(prog)]
+    from rules.prog import decoder_functions
+    roots, decs = decoder_functions(prog, cg)
+    obs = []
+    cobs = []
+    nfn = nreads = ncov = 0
+    for q, fn in sorted(decs.items()):
+        ap = [p for p in fn.params() if p.get('n') == 'address']
+        if not ap:
+            continue
+        ad = ap[0]['d']
+        params = {p_['d'] for p_ in fn.params()}
+        tp = [p_ for p_ in fn.params() if p_.get('n') == 'instruction']
+        textd = tp[0]['d'] if tp else None
+        L = Lin(fn)
+        reads = {}
+        for c in fn.calls():
+            w_ = WIDTH.get((callee(c) or '').split('(')[0])
+            if not w_ or not call_args(c):
+                continue
+            lf = L.lin(call_args(c)[0])
+            if lf is None:
+                continue
+            reads[c['i']] = (c, lf, w_)
+        rets = {}
+        for n in fn.nodes.values():
+            if n['k'] == 'ReturnStmt' and kids(n):
+                lf = L.lin(kids(n)[0])
+                if lf is not None:
+                    rets[n['i']] = (n, lf)
+        # only the decoders READ-EXTENT cannot decide: a running address or a running returned length
+        running = bool(L.stored.get(ad)) or any(any(L.stored.get(a) for a in lf[0]) for _, lf in rets.values()) \
+            or any(any(L.stored.get(a) for a in lf[0] if a != ad) for _, lf, _w in reads.values())
+        if not reads or not rets or textd is None:
+            continue
+        if running:
+            nfn += 1
+        nreads += len(reads)
+        # the variables the offsets / returned lengths depend on are propagated (a table index `n++` is not)
+        rel = set()
+        for _, lf, _w in reads.values():
+            rel |= set(lf[0])
+        for _, lf in rets.values():
+            rel |= set(lf[0])
+        affine = {}          # node id -> (decl, kind, lin)
+        for d, ns in L.stored.items():
+            for n in ns:
+                if n['k'] == 'UnaryOperator':
+                    affine[n['i']] = (d, 'havoc', None) if n.get('op') == '&' else (d, 'add', ({}, 1 if n['op'] == '++' else -1))
+                    continue
+                rhs = L.lin(kids(n)[1])
+                op = n.get('op')
+                if op == '=' and rhs is not None:
+                    affine[n['i']] = (d, 'set', rhs)
+                elif op in ('+=', '-=') and rhs is not None:
+                    if op == '-=':
+                        rhs = ({a: -c_ for a, c_ in rhs[0].items()}, -rhs[1])
+                    affine[n['i']] = (d, 'add', rhs)
+                else:
+                    affine[n['i']] = (d, 'havoc', None)
+        declinit = {}        # DeclStmt id -> [(decl, init node, lin)]
+        for n in fn.nodes.values():
+            if n['k'] == 'DeclStmt':
+                for dd, i_ in zip([x for x in n.get('decls', ()) if x.get('init')], kids(n)):
+                    declinit.setdefault(n['i'], []).append((dd['d'], i_, L.lin(i_)))
+        grew = True
+        while grew:
+            grew = False
+            for d, kind, lf in affine.values():
+                if d in rel and lf is not None and set(lf[0]) - rel:
+                    rel |= set(lf[0])
+                    grew = True
+            for lst in declinit.values():
+                for d, i_, lf in lst:
+                    if d in rel and lf is not None and set(lf[0]) - rel:
+                        rel |= set(lf[0])
+                        grew = True
+        # loop counters (`n = 0; n < 3; n++`): stored locals with constant-only stores that some branch compares with a constant
+        # are propagated too and their tests evaluated, so a loop over the operands runs exactly as often as it can
+        counters = set()
+        for d in L.stored:
+            ents = [a for a in affine.values() if a[0] == d]
+            if d in params or not ents or any(a[1] == 'havoc' or a[2][0] for a in ents):
+                continue
+            if any(lf is None or lf[0] for lst in declinit.values() for dd, i_, lf in lst if dd == d):
+                continue
+            counters.add(d)
+        ctest = {}
+        for b, bb in fn.blocks.items():
+            cn = fn.nodes.get(bb.get('cond')) if 'cond' in bb else None
+            if cn is None or len(bb['s']) != 2:
+                continue
+            own = strip(cn)
+            while own['k'] == 'BinaryOperator' and own.get('op') in ('&&', '||'):
+                own = strip(kids(own)[1])
+            if own['k'] == 'BinaryOperator' and own.get('op') in ('<', '<=', '>', '>=', '==', '!='):
+                l_, r_ = strip(kids(own)[0], casts=True), strip(kids(own)[1], casts=True)
+                if l_['k'] == 'DeclRefExpr' and l_.get('d') in counters and const(r_) is not None:
+                    ctest[b] = (l_['d'], own['op'], const(r_))
+        counters = {t[0] for t in ctest.values()}
+        ctest = {b: t for b, t in ctest.items() if t[0] in counters}
+        rel |= counters
+        rowsw = _row_switches(prog, fn, counters)
+        # `i < table_X[n].operand_count`: a counter compared with a column of the matched row
+        rowcond = {}
+        for b, bb in fn.blocks.items():
+            cn = fn.nodes.get(bb.get('cond')) if 'cond' in bb else None
+            if cn is None or len(bb['s']) != 2 or bb.get('termk') == 'SwitchStmt':
+                continue
+            own = strip(cn)
+            while own['k'] == 'BinaryOperator' and own.get('op') in ('&&', '||'):
+                own = strip(kids(own)[1])
+            if own['k'] == 'BinaryOperator' and own.get('op') in _CMP:
+                l_ = strip(kids(own)[0], casts=True)
+                rm = _row_member(prog, fn, kids(own)[1])
+                if l_['k'] == 'DeclRefExpr' and l_.get('d') in L.stored and rm is not None:
+                    rowcond[b] = (l_['d'], own['op']) + rm
+        for b, t in rowcond.items():
+            d = t[0]
+            ents = [a for a in affine.values() if a[0] == d]
+            if d not in params and ents and not any(a[1] == 'havoc' or a[2][0] for a in ents):
+                counters.add(d)
+                rel.add(d)
+        rowcond = {b: t for b, t in rowcond.items() if t[0] in counters}
+        live = _liveness(fn, {ad} | ({textd} if textd is not None else set()))
+        snap = set()         # never-reassigned locals initialised from a running variable are snapshots of it
+        for lst in declinit.values():
+            for d, i_, lf in lst:
+                if d in rel and not L.stored.get(d) and lf is not None and set(lf[0]) != {d}:
+                    snap.add(d)
+        # per-block event lists
+        events = {}
+        for b, bb in fn.blocks.items():
+            lst = []
+            for nid in bb['e']:
+                n = fn.nodes.get(nid)
+                if n is None:
+                    continue
+                k = n['k']
+                if k in ('BinaryOperator', 'CompoundAssignOperator') and n.get('op', '').endswith('=') and \
+                        n['op'] not in ('==', '!=', '<=', '>='):
+                    t = strip(kids(n)[0])
+                    if t['k'] == 'DeclRefExpr':
+                        lst.append(('assign', n, t.get('d')))
+                elif k == 'UnaryOperator' and n.get('op') in ('++', '--') and nid in affine:
+                    lst.append(('assign', n, affine[nid][0]))
+                elif k == 'DeclStmt' and nid in declinit:
+                    lst.append(('decl', n, None))
+                elif k in ('CallExpr', 'CXXMemberCallExpr') and nid not in reads:
+                    lst.append(('call', n, None))
+                elif nid in reads:
+                    lst.append(('read', n, None))
+                elif k == 'ReturnStmt' and nid in rets:
+                    lst.append(('ret', n, None))
+            if lst:
+                events[b] = lst
+        bst = _block_stores(fn, L.stored)
+        ctext = {b: _cond_text(fn, b) for b in fn.blocks}
+        # `X != Y` is the test `X == Y` with the edges swapped
+        flip = {}
+        for b, (t, v) in list(ctext.items()):
+            if t is not None and ' != ' in t and t.count(' != ') == 1 and '&&' not in t and '||' not in t:
+                ctext[b] = (t.replace(' != ', ' == '), v)
+                flip[b] = 1
+        cnt = {}
+        for b, (t, v) in ctext.items():
+            if t is not None:
+                cnt[t] = cnt.get(t, 0) + 1
+        # a condition tested once cannot contradict itself: remember only the repeated ones
+        ctext = {b: (tv if tv[0] is not None and cnt[tv[0]] > 1 else (None, None)) for b, tv in ctext.items()}
+
+        def exprtaint(e, env, taint):
+            t = ()
+            stack = [e]
+            while stack:
+                x = stack.pop()
+                if x is None or x['k'] == 'UnaryExprOrTypeTraitExpr':
+                    continue
+                stack.extend(kids(x))
+                if x['i'] in reads:
+                    c, lf, w_ = reads[x['i']]
+                    s_ = _subst(lf, env, params)
+                    if s_ is not None and dict(s_[0]).get(ad) == 1:
+                        sym = tuple(kv for kv in s_[0] if kv[0] != ad)
+                        t = _tmax(t, ((sym, (s_[1] + w_, x['i'])),))
+                elif x['k'] == 'DeclRefExpr' and x.get('d') in taint:
+                    t = _tmax(t, taint[x['d']])
+            return t
+
+        memd = {p_['d'] for p_ in fn.params() if 'Memory' in (fn.types[p_['t']] or '')}
+        st = [(fn.entry, (), (), ((), frozenset()), frozenset())]
+        seen = set()
+        steps = 0
+        found = {}
+        gaps = {}
+        covered = set()
+        decided = set()
+        overflow = False
+        while st:
+            state = st.pop()
+            if state in seen:
+                continue
+            seen.add(state)
+            steps += 1
+            if steps > limit:
+                overflow = True
+                if os.environ.get('NK_DEBUG_EXTENT'):
+                    from collections import Counter
+                    cb = Counter(x[0] for x in seen)
+                    print('DEBUG-OVERFLOW', fn.q, cb.most_common(5), file=sys.stderr)
+                    bb_ = cb.most_common(1)[0][0]
+                    ss = [x for x in seen if x[0] == bb_]
+                    for j in range(1, 5):
+                        print('  comp', j, len(set(x[j] for x in ss)), file=sys.stderr)
+                    for x in ss[:3]:
+                        print('  ', x[1], x[2], x[4], file=sys.stderr)
+                break
+            b, envk, taintk, cov, facts = state
+            evs = events.get(b)
+            if evs:
+                env = dict(envk)
+                taint = dict(taintk)
+                for kind, n, d in evs:
+                    if kind == 'assign':
+                        if n['k'] != 'UnaryOperator':
+                            tv = exprtaint(kids(n)[1], env, taint)
+                            if n.get('op') != '=':
+                                tv = _tmax(tv, taint.get(d, ()))
+                            if tv:
+                                taint[d] = tv
+                            else:
+                                taint.pop(d, None)
+                        a = affine.get(n['i'])
+                        if a is not None and d in rel:
+                            _, ak, lf = a
+                            if cov is not None and d != ad and d not in counters:
+                                cov = (cov[0], cov[1] | {d}) if ak == 'add' else (cov[0], cov[1] - {d})
+                            if ak == 'havoc':
+                                env[d] = None
+                            elif ak == 'set':
+                                env[d] = _subst(lf, env, params)
+                            else:
+                                cur = env[d] if d in env else ((((d, 1),), 0) if d in params else None)
+                                inc = _subst(lf, env, params)
+                                if cur is None or inc is None:
+                                    env[d] = None
+                                else:
+                                    m = dict(cur[0])
+                                    for a2, k2 in inc[0]:
+                                        m[a2] = m.get(a2, 0) + k2
+                                    env[d] = (tuple(sorted((a2, k2) for a2, k2 in m.items() if k2)), cur[1] + inc[1])
+                                    if abs(env[d][1]) > CAP:
+                                        env[d] = None       # widening: a counter running away in a loop is unknown from here on
+                    elif kind == 'decl':
+                        for dd, i_, lf in declinit[n['i']]:
+                            tv = exprtaint(i_, env, taint)
+                            if tv:
+                                taint[dd] = tv
+                            else:
+                                taint.pop(dd, None)
+                            if dd in rel and (L.stored.get(dd) or dd in snap):
+                                env[dd] = _subst(lf, env, params) if lf is not None else None
+                    elif kind == 'read':
+                        if cov is not None:
+                            c, lf, w_ = reads[n['i']]
+                            s_ = _subst(lf, env, params)
+                            if s_ is None or s_[0] != ((ad, 1),):
+                                cov = None
+                            elif (s_[1], s_[1] + w_) not in cov[0]:
+                                cov = (tuple(sorted(cov[0] + ((s_[1], s_[1] + w_),))), cov[1])
+                    elif kind == 'call':
+                        args = call_args(n)
+                        if cov is not None and any(x['k'] == 'DeclRefExpr' and x.get('d') in memd for a_ in args for x in walk(a_)):
+                            cov = None      # a helper reads for the decoder: coverage not decided on this path
+                        nm = (callee(n) or '').split('(')[0]
+                        tv = ()
+                        for a_ in (args[1:] if nm in ('snprintf', 'sprintf', 'strcpy') else args):
+                            tv = _tmax(tv, exprtaint(a_, env, taint))
+                        if nm in ('printf', 'fprintf') or not args:
+                            continue
+                        # text flows into character buffers: the destination of a formatting call, or every buffer handed
+                        # to a helper together with the value
+                        if nm in FORMAT:
+                            dests = [args[0]]
+                        else:
+                            dests = args
+                        for a_ in dests:
+                            for x in walk(a_):
+                                if x['k'] == 'DeclRefExpr' and x.get('d') is not None and 'char' in (fn.type(x) or '') and \
+                                        ('[' in fn.type(x) or '*' in fn.type(x)):
+                                    dd = x['d']
+                                    if nm in ('snprintf', 'sprintf', 'strcpy') and a_ is args[0] and strip(a_, casts=True) is x:
+                                        if tv:
+                                            taint[dd] = tv
+                                        else:
+                                            taint.pop(dd, None)
+                                    elif tv:
+                                        taint[dd] = _tmax(taint.get(dd, ()), tv)
+                                    break
+                    else:
+                        r, lf = rets[n['i']]
+                        # locals never assigned (no initialiser, never stored) stay symbolic; running locals not yet set are unknown
+                        if any(L.stored.get(a) and a not in env and a not in params for a in lf[0]):
+                            continue
+                        s_ = _subst(lf, env, params)
+                        if s_ is None or any(a == ad for a, _k in s_[0]):
+                            continue
+                        if not s_[0] and s_[1] <= 0:
+                            continue
+                        decided.add(n['i'])
+                        if cov is not None and not s_[0] and any(a in cov[1] for a in lf[0]):
+                            pos = 0
+                            for a0, a1 in cov[0]:
+                                if a0 > pos:
+                                    break
+                                pos = max(pos, a1)
+                            covered.add(n['i'])
+                            if pos < s_[1]:
+                                gaps.setdefault(n['i'], (pos, s_[1], cov[0]))
+                        for sym, (ext, rid) in (taint.get(textd, ()) if running else ()):
+                            if sym == s_[0] and ext > s_[1]:
+                                if (rid, n['i']) not in found and os.environ.get('NK_DEBUG_EXTENT'):
+                                    print('DEBUG', fn.q, r['l'], {L.names.get(k_, k_): v_ for k_, v_ in taint.items()}, file=sys.stderr)
+                                found.setdefault((rid, n['i']), (ext, s_[1]))
+                envk = tuple(sorted(env.items(), key=lambda kv: kv[0]))
+                taintk = tuple(sorted(taint.items(), key=lambda kv: kv[0]))
+            sd = bst.get(b, ())
+            f2 = facts
+            if sd:
+                f2 = frozenset((t, e, v) for (t, e, v) in facts if not (v & set(sd)))
+            txt, vs = ctext[b]
+            only = None
+            if b in ctest:
+                cd, cop, cc = ctest[b]
+                cv = dict(envk).get(cd)
+                if cv is not None and not cv[0]:
+                    v_ = cv[1]
+                    truth = {'<': v_ < cc, '<=': v_ <= cc, '>': v_ > cc, '>=': v_ >= cc, '==': v_ == cc, '!=': v_ != cc}[cop]
+                    only = 0 if truth else 1
+            rsw = rowsw.get(b)
+            rkey = None
+            if rsw is not None:
+                table, itxt, ivs, fld, cdecl, cidx, allowed, allv = rsw
+                if cdecl is not None:
+                    cv = dict(envk).get(cdecl)
+                    cidx = cv[1] if cv is not None and not cv[0] else None
+                if cdecl is None or cidx is not None:
+                    rkey = ('R', table, itxt, fld, cidx)
+            rc = rowcond.get(b)
+            rcv = None
+            if rc is not None:
+                cv = dict(envk).get(rc[0])
+                if cv is not None and not cv[0]:
+                    rcv = cv[1]
+            for i, s_ in enumerate(fn.blocks[b]['s']):
+                if s_ is None or s_ == fn.exit or (only is not None and i != only):
+                    continue
+                f3 = f2
+                if rcv is not None:
+                    _, cop, table, itxt, ivs, fld = rc
+                    k_ = ('R', table, itxt, fld, None)
+                    c_ = ('cmp', (cop, rcv, i == 0))
+                    cons = [(k_, c_)] + [(t, e) for (t, e, v) in f2 if isinstance(t, tuple) and t[1] == table and t[2] == itxt]
+                    if not _rows_ok(prog, table, cons):
+                        continue
+                    f3 = f2 | {(k_, c_, ivs)}
+                if rkey is not None:
+                    # the kinds chosen for the operands of one row must all come from one row of the table
+                    al = allowed[i]
+                    cons = [(rkey, ('in', al) if al is not None else ('out', allv))] + \
+                        [(t, e) for (t, e, v) in f2 if isinstance(t, tuple) and t[1] == table and t[2] == itxt]
+                    if not _rows_ok(prog, table, cons):
+                        continue
+                    f3 = f3 | {(rkey, ('in', al) if al is not None else ('out', allv), ivs)}
+                if txt is not None:
+                    ei = i ^ flip.get(b, 0)
+                    if any(t == txt and e != ei for (t, e, v) in f2):
+                        continue
+                    f3 = f3 | {(txt, ei, vs)}
+                lv = live[s_]
+                st.append((s_, tuple(kv for kv in envk if kv[0] in lv), tuple(kv for kv in taintk if kv[0] in lv), cov,
+                           frozenset(x for x in f3 if x[2] <= lv)))
+        for (rid, pl), (ext, ret) in sorted(found.items()):
+            c = reads[rid][0]
+            r = rets[pl][0]
+            obs.append(Ob('RUN-EXTENT', fn.file, c['l'], fn.q, '%s->return %s' % (show(c)[:60], show(kids(r)[0])[:30]),
+                          VIOLATED,
+                          'on a condition-consistent path `%s` reads up to byte %d of the instruction (running position '
+                          'propagated through the affine updates of address/length), its value reaches a call argument, and '
+                          '`return %s` (line %d) then reports a length of %d: the operand is taken from outside the bytes the '
+                          'decoder claims' % (show(c), ext, show(kids(r)[0]), r['l'], ret)))
+        for rid_, (pos, ln, cov_) in sorted(gaps.items()):
+            r = rets[rid_][0]
+            cobs.append(Ob('RUN-COVER', fn.file, r['l'], fn.q, 'return %s@%d' % (show(kids(r)[0])[:30], pos), VIOLATED,
+                           'on a condition-consistent path `return %s` reports %d bytes but the decoder has read only the byte '
+                           'ranges %s of them: byte %d of the instruction is never looked at, so different encodings print the '
+                           'same text' % (show(kids(r)[0]), ln, list(cov_), pos)))
+        if covered and not overflow:
+            ncov += 1
+            if not gaps:
+                cobs.append(Ob('RUN-COVER', fn.file, fn.line, fn.q, '%d returns' % len(covered), DISCHARGED, '',
+                               'on every decided path the reads tile the returned length', True))
+        if not running:
+            continue
+        if overflow:
+            obs.append(Ob('RUN-EXTENT', fn.file, fn.line, fn.q, 'path search', OBSERVATION,
+                          'more than %d path states: not decided' % limit))
+        elif not found:
+            obs.append(Ob('RUN-EXTENT', fn.file, fn.line, fn.q, '%d reads / %d returns' % (len(reads), len(decided)),
+                          DISCHARGED, '',
+                          'on every condition-consistent path the extent of the reads that reach a call argument is <= the '
+                          'returned length', True))
+    out = (RuleResult('RUN-EXTENT', obs, 0, {'decoders_with_running_position': nfn, 'reads': nreads}),
+           RuleResult('RUN-COVER', cobs, 0, {'decoders_decided': ncov}))
+    _RUN_CACHE[id(prog)] = out
+    return out
